@@ -123,11 +123,6 @@ def _(self: Obj['rbql_csv.CSVRecordIterator'], query_text: Str) -> VMap:
 classdef('rbql_sqlite.SqliteRecordIterator', ghost=dict(names=Seq[Str]))
 
 
-@trusted('rbql_sqlite.SqliteRecordIterator.get_header', trusted='A-DEP: the column names of the table, from cursor.description (sqlite3): the same names at every call')
-def _(self: Obj['rbql_sqlite.SqliteRecordIterator']) -> List[Str]:
-    ensures(is_fresh(result) and contents(result) == self.names, 'the_column_names')
-
-
 @contract('rbql_sqlite.SqliteRecordIterator.get_variables_map', name='C09.vars.sqlite', props=['C09'], store_policy='none')
 def _(self: Obj['rbql_sqlite.SqliteRecordIterator'], query_text: Str) -> VMap:
     assumes(shapes_disjoint(query_text, self.variable_prefix, self.names), 'A-PARSE-VARS: spellings of different kinds never coincide')
